@@ -298,6 +298,7 @@ class World:
         for name, text in texts.items():
             try:
                 ast.parse(_nobom(text))
+                compile(_nobom(text), "<c16-source>", "exec", dont_inherit=True)
                 st[name] = True
             except SyntaxError as e:
                 st[name] = "SyntaxError: %s (line %s)" % (e.msg, e.lineno)
